@@ -10,9 +10,9 @@ import (
 
 func init() {
 	register("C11", &propSpec{
-		level: "other",
+		level:       "other",
 		explanation: "Handle-table discipline decided on SSA: the handle counter is only incremented under the table lock and handles are its decimal rendering; the tables are touched only under their lock (named exceptions: constructors, the os server's end sweep after all workers were joined); the object returned by a lookup is used only under ok and the miss path answers EBADF; close sites are {close request, failed-open cleanup, end sweep} with delete and Close on the same locked path; everything obtained from a handler or from openfile is, on every non-error path, stored in a registered handle or closed; transfer-error notification and context cancellation are tied to the sweep and to Request.close; sweeps run after the worker join on every return path.",
-		run: runC11,
+		run:         runC11,
 		assumptions: []string{"handler objects do not close themselves", "package os releases descriptors on Close"},
 	})
 }
@@ -681,12 +681,23 @@ func checkOwnership(c *Ctx) {
 				c.bad("R6", key, pos(in), "the error result of "+kind+" is not tested: ownership of the returned object cannot be established")
 				return
 			}
+			unowned := ""
 			isConsumer := func(x ssa.Instruction) bool {
 				if cc := callOf(x); cc != nil {
 					nm := calleeName(cc)
 					if setters[nm] || nm == "nextHandle" {
 						for _, a := range cc.Args {
 							if objs[a] || objs[stripConv(a)] {
+								if setters[nm] {
+									// storing the object in a Request only transfers ownership when somebody owns the Request
+									if r := recvOf(cc); r != nil {
+										root, _ := accessPath(r)
+										if ok, why := requestOwned(p, rootParam(root), x, 0); !ok {
+											unowned = why
+											return false
+										}
+									}
+								}
 								return true
 							}
 						}
@@ -715,8 +726,11 @@ func checkOwnership(c *Ctx) {
 			if kind == "Server.openfile" {
 				rule = "R7"
 			}
-			c.check(!leak, rule, key, pos(in), "on every non-error path the object is stored in a handle or closed before the function returns",
-				"the object returned by "+kind+" can be dropped on a non-error path without being stored in a handle or closed")
+			why := "the object returned by " + kind + " can be dropped on a non-error path without being stored in a handle or closed"
+			if unowned != "" {
+				why = "the object returned by " + kind + " is stored in a Request that nobody closes: " + unowned
+			}
+			c.check(!leak, rule, key, pos(in), "on every non-error path the object is stored in a handle (a Request that is in the handle table or closed by its creator) or closed before the function returns", why)
 		})
 	}
 	c.check(n >= 8, "R6", "producer sites", "?", fmt.Sprintf("%d producer sites examined", n), fmt.Sprintf("only %d producer sites found (8 expected): anchors lost", n))
@@ -730,3 +744,87 @@ func recvTypeOf(fn *ssa.Function) types.Type {
 }
 
 func dominatesBlockOrSame(a, b *ssa.BasicBlock) bool { return a == b || a.Dominates(b) }
+
+// requestOwned: is the *Request denoted by v (at instruction `at`) one that somebody will close?  Yes when it came
+// out of the handle table (getRequest), was entered into it (nextRequest) before `at`, or is closed by its creator on
+// every path after `at`; a parameter is owned when that holds at every call site.
+func requestOwned(p *Program, v ssa.Value, at ssa.Instruction, depth int) (bool, string) {
+	if depth > 4 {
+		return false, "call chain too deep"
+	}
+	fn := at.Parent()
+	isReq := func(x ssa.Value) bool { return x == v || sameRoot(x, v) }
+	switch x := v.(type) {
+	case *ssa.Parameter:
+		sites := p.callersOfStatic(x.Parent())
+		if len(sites) == 0 || len(p.refsAsValue(x.Parent())) > 0 {
+			return false, "callers of " + fnName(x.Parent()) + " cannot be enumerated"
+		}
+		idx := paramIndex(x)
+		for _, site := range sites {
+			cc := callOf(site)
+			args := cc.Args
+			if idx >= len(args) {
+				return false, "argument mismatch at " + p.Pos(site.Pos())
+			}
+			a := args[idx]
+			root, _ := accessPath(a)
+			if root == nil {
+				root = a
+			}
+			if ok, why := requestOwned(p, rootParam(root), site, depth+1); !ok {
+				return false, why
+			}
+		}
+		return true, ""
+	case *ssa.Phi:
+		for _, e := range x.Edges {
+			if ok, why := requestOwned(p, e, at, depth+1); !ok {
+				return false, why
+			}
+		}
+		return true, ""
+	case *ssa.Extract:
+		if call, ok := x.Tuple.(*ssa.Call); ok && calleeName(&call.Call) == "getRequest" && x.Index == 0 {
+			return true, ""
+		}
+	}
+	// a request created here: entered into the table before `at`, or closed after it on every path
+	for _, in := range findInstrs(fn, func(in ssa.Instruction) bool {
+		cc := callOf(in)
+		if cc == nil || calleeName(cc) != "nextRequest" {
+			return false
+		}
+		for _, a := range cc.Args {
+			if isReq(a) {
+				return true
+			}
+		}
+		return false
+	}) {
+		if dominates(in, at) {
+			return true, ""
+		}
+	}
+	isCloseOfReq := func(in ssa.Instruction) bool {
+		cc := callOf(in)
+		if cc == nil || calleeName(cc) != "close" {
+			return false
+		}
+		r := recvOf(cc)
+		return r != nil && isReq(r)
+	}
+	if _, isCall := at.(ssa.CallInstruction); isCall {
+		if !reachAvoiding(fn, at, func(in ssa.Instruction) bool {
+			// leaving the iteration without the close: a return, or the request variable's next use in the loop
+			if isReturn(in) {
+				return true
+			}
+			cc := callOf(in)
+			return cc != nil && calleeName(cc) == "readyPacket"
+		}, isCloseOfReq) {
+			return true, ""
+		}
+	}
+	return false, "the Request at " + p.Pos(at.Pos()) + " in " + fnName(fn) + " is neither in the handle table nor closed by its creator"
+}
